@@ -158,6 +158,85 @@ def near_threshold_pair(rng, ratio_fn):
     return rand_rgb(rng), rand_rgb(rng)
 
 
+_KNIFE = {}
+
+
+def knife_edge_pairs(rng, n):
+    """pairs whose contrast ratio is within 0.004 of a threshold (3.0, 4.5, 7.0), on both sides: where
+    rounding the ratio, an exclusive comparison or a neighbouring colour changes the verdict"""
+    repo_import()
+    from cm_colors.core.contrast import calculate_contrast_ratio as ratio_fn
+    out = []
+    tries = 0
+    while len(out) < n and tries < n * 400:
+        tries += 1
+        thr = rng.choice([3.0, 4.5, 7.0])
+        b = rand_rgb(rng) if rng.random() < 0.6 else rng.choice([(255, 255, 255), (0, 0, 0), (250, 250, 250), (20, 20, 20)])
+        base = rand_rgb(rng)
+        # walk the text along the line towards black/white to get close, then fine-tune single channels
+        far = (0, 0, 0) if ratio_fn((0, 0, 0), b) > ratio_fn((255, 255, 255), b) else (255, 255, 255)
+        if ratio_fn(far, b) < thr or ratio_fn(base, b) > thr:
+            continue
+        lo, hi = 0.0, 1.0
+        for _ in range(16):
+            mid = (lo + hi) / 2
+            t = tuple(int(round(x + (y - x) * mid)) for x, y in zip(base, far))
+            if ratio_fn(t, b) < thr:
+                lo = mid
+            else:
+                hi = mid
+        t = tuple(int(round(x + (y - x) * hi)) for x, y in zip(base, far))
+        best, bd = None, 1.0
+        for dr in (-2, -1, 0, 1, 2):
+            for dg in (-1, 0, 1):
+                for db in (-3, -2, -1, 0, 1, 2, 3):
+                    c = (t[0] + dr, t[1] + dg, t[2] + db)
+                    if min(c) < 0 or max(c) > 255:
+                        continue
+                    d = abs(ratio_fn(c, b) - thr)
+                    if d < bd:
+                        best, bd = c, d
+        if best is not None and bd < 0.004:
+            out.append((best, b))
+    return out
+
+
+def isoluminant_pair(rng):
+    """two saturated colours of similar luminance and different hue: contrast near 1, and OKLCH
+    lightness order may disagree with WCAG luminance order"""
+    import colorsys
+    repo_import()
+    from cm_colors.core.contrast import calculate_relative_luminance as lum
+    h1, h2 = rng.random(), rng.random()
+    t = tuple(int(round(255 * x)) for x in colorsys.hsv_to_rgb(h1, rng.uniform(0.7, 1.0), rng.uniform(0.5, 1.0)))
+    target = lum(t) * rng.uniform(0.85, 1.15)
+    lo, hi = 0.0, 1.0
+    s = rng.uniform(0.7, 1.0)
+    for _ in range(14):
+        mid = (lo + hi) / 2
+        b = tuple(int(round(255 * x)) for x in colorsys.hsv_to_rgb(h2, s, mid))
+        if lum(b) < target:
+            lo = mid
+        else:
+            hi = mid
+    return t, tuple(int(round(255 * x)) for x in colorsys.hsv_to_rgb(h2, s, hi))
+
+
+def order_disagree_pair(rng):
+    """saturated colours whose OKLCH-lightness order disagrees with their WCAG-luminance order, with
+    a luminance gap that a small move cannot cross: the lightness search starts by *lowering* contrast"""
+    import colorsys
+    repo_import()
+    from cm_colors.core.conversions import rgb_to_oklch
+    from cm_colors.core.contrast import calculate_relative_luminance as lum, calculate_contrast_ratio as ratio
+    for _ in range(3000):
+        t = tuple(int(round(255 * x)) for x in colorsys.hsv_to_rgb(rng.random(), rng.uniform(0.6, 1), rng.uniform(0.4, 1)))
+        b = tuple(int(round(255 * x)) for x in colorsys.hsv_to_rgb(rng.random(), rng.uniform(0.6, 1), rng.uniform(0.4, 1)))
+        if (rgb_to_oklch(t)[0] > rgb_to_oklch(b)[0]) != (lum(t) > lum(b)) and ratio(t, b) >= 1.08:
+            return t, b
+    return isoluminant_pair(rng)
+
+
 def gen_pairs(rng, n):
     """structured pair mix: uniform, grey x grey, named x named, near-threshold, text≈bg"""
     repo_import()
@@ -167,15 +246,22 @@ def gen_pairs(rng, n):
     kinds = []
     for i in range(n):
         u = rng.random()
-        if u < 0.22:
+        if u < 0.12:
             pairs.append((rand_rgb(rng), rand_rgb(rng))); kinds.append("uniform")
+        elif u < 0.19:
+            pairs.append(isoluminant_pair(rng)); kinds.append("isolum")
+        elif u < 0.22:
+            pairs.append(order_disagree_pair(rng)); kinds.append("order_disagree")
         elif u < 0.34:
             a, b = rng.randrange(256), rng.randrange(256)
             pairs.append(((a, a, a), (b, b, b))); kinds.append("grey")
         elif u < 0.42:
             pairs.append((rng.choice(named)[1], rng.choice(named)[1])); kinds.append("named")
-        elif u < 0.92:
+        elif u < 0.82:
             pairs.append(near_threshold_pair(rng, ratio_fn)); kinds.append("near")
+        elif u < 0.92:
+            k = knife_edge_pairs(rng, 1)
+            pairs.append(k[0] if k else near_threshold_pair(rng, ratio_fn)); kinds.append("knife")
         else:
             b = rand_rgb(rng)
             d = rng.choice([0, 0, 1, 2, 5])
